@@ -271,8 +271,6 @@ def rule_cost(chk, prog):
                     k = 0 if wit == PI else 2 if wit == 0 else 1     # every angle strictly between is one bend
                 seen_k.add(k)
                 rest = to_poly(out[1]) - D - k * P
-                if kind_name == "ConnType_PolyLine" and prev is not None and wit == 1:
-                    continue     # polyline with an angle penalty of zero still only adds P; checked below
                 if rest != Poly.const(0):
                     bad = "for angle class %s (prev=%s) cost() = %r, expected DIST + %d*P" % (
                         "straight" if wit == PI else "double-back" if wit == 0 else "bend", "yes" if prev else "none", out[1], k)
@@ -294,8 +292,107 @@ def rule_edge_length(chk, prog):
     (r.ok if st == [pname] else r.bad)("Avoid::EdgeInf::setDist", fn.where(), "" if st == [pname] else "stores %s to m_dist" % st)
 
 
+def rule_bend_symmetry(chk, prog, tier):
+    """validateBendPoint prunes zig-zag bends during the polyline search.  Whatever its exact definition, validity of a bend
+    cannot depend on the direction in which the path is traversed: V(a,b,c) == V(c,b,a) for the same corner d-b-e.
+    Decided on the extracted decision tree over every realisable sign class of an integer grid."""
+    import numpy as np
+    from ..microai.geom import sym_point, interpret_tree, grid_env, orient
+    r = chk.rule("BEND-SYMMETRY", "decision tree of validateBendPoint(a,b,c) with corner neighbours d=b.shPrev, e=b.shNext (convex corner, "
+                 "vecDir(d,b,e) > 0): the verdict is the same for (a,b,c) and (c,b,a) on every realisable sign class -- otherwise the "
+                 "route P->Q and the route Q->P prune different bends and one of them is not shortest", floor=1)
+    fn = prog.fn("Avoid::validateBendPoint")
+    vid = Obj("Avoid::VertID", {"objID": 1, "vn": 0, "props": 0})
+
+    def vert(nm, prev=None, nxt=None):
+        return Obj("Avoid::VertInf", {"point": sym_point(nm), "id": copy.deepcopy(vid), "shPrev": prev, "shNext": nxt})
+
+    def mk(first, last):
+        d, e = vert("d"), vert("e")
+        b = vert("b", d, e)
+        return [vert(first), b, vert(last)]
+    names = [x + "." + y for x in "abcde" for y in "xy"]
+    side = 3
+    try:
+        rows1 = interpret_tree(prog, fn, mk("a", "c"), lattice=True, grid=(names, side))
+        rows2 = interpret_tree(prog, fn, mk("c", "a"), lattice=True, grid=(names, side))
+    except Unsupported as e:
+        raise AnalysisBroken("validateBendPoint outside the interpreter subset: %s" % e)
+    env = grid_env(names, side)
+    n = len(env[names[0]])
+
+    def evaltree(rows):
+        out = np.full(n, -5, dtype=np.int64)
+        cache = {}
+        for val, descr, o in rows:
+            m = np.ones(n, dtype=bool)
+            for k, v in val.items():
+                if k not in cache:
+                    cache[k] = np.sign(Poly({mm: Fraction(c[0], c[1]) for mm, c in k[1]}).eval_np(env))
+                m &= (cache[k] == v)
+            out[m] = int(bool(o[1])) if o[0] == "ret" else -1
+        return out
+    o1, o2 = evaltree(rows1), evaltree(rows2)
+    pre = orient(env, "d", "b", "e") > 0
+    asserts = pre & ((o1 < 0) | (o2 < 0))
+    diff = pre & (o1 != o2) & (o1 >= 0) & (o2 >= 0)
+    r.count(len(rows1) + len(rows2))
+    if asserts.any():
+        i = int(np.argmax(asserts))
+        r.bad("Avoid::validateBendPoint", fn.where(), "assertion failure on a convex corner: %s" % {v: int(env[v][i]) for v in names})
+    elif diff.any():
+        i = int(np.argmax(diff))
+        r.bad("Avoid::validateBendPoint", fn.where(), "bend a=%s b=%s c=%s at corner d=%s e=%s is %s forwards but %s backwards (%d grid tuples)" % (
+            (int(env["a.x"][i]), int(env["a.y"][i])), (int(env["b.x"][i]), int(env["b.y"][i])), (int(env["c.x"][i]), int(env["c.y"][i])),
+            (int(env["d.x"][i]), int(env["d.y"][i])), (int(env["e.x"][i]), int(env["e.y"][i])),
+            "valid" if o1[i] else "invalid", "valid" if o2[i] else "invalid", int(diff.sum())))
+    else:
+        r.ok("Avoid::validateBendPoint", fn.where(), "%d+%d paths, %d convex-corner tuples" % (len(rows1), len(rows2), int(pre.sum())))
+    chk.extra["bend_symmetry_tuples"] = int(pre.sum())
+
+
+def rule_blocker_recorded(chk, prog):
+    """Invisibility-graph bookkeeping that the incremental polyline router relies on to re-discover shorter paths."""
+    from ..cfg import CFG
+    r = chk.rule("BLOCKER-RECORDED", "EdgeInf::addBlocker(b) stores m_blocker = b and m_dist = 0 on every path; Router::checkAllBlockedEdges(pid) "
+                 "re-tests every invisibility edge whose recorded blocker is pid or -1: a stale blocker id leaves an edge invisible after "
+                 "its last blocker moved away (routes stay longer than necessary)", floor=2)
+    fn = prog.fn("Avoid::EdgeInf::addBlocker")
+    g = CFG(fn)
+    bad = None
+    pname = fn.params[0]["name"]
+    for field, want in (("Avoid::EdgeInf::m_blocker", pname), ("Avoid::EdgeInf::m_dist", "0")):
+        st = [node for lhs, node, op in writes(fn) if written_field(lhs)[0] == field and op == "=" and norm(node["ch"][1]) == want]
+        if not st:
+            bad = bad or "no store %s = %s" % (field.split("::")[-1], want)
+        elif g.exit_reachable_avoiding([x["id"] for x in st]) is not None:
+            bad = bad or "%s = %s is skipped on the path %s" % (field.split("::")[-1], want, g.describe(g.exit_reachable_avoiding([x["id"] for x in st])))
+    r.count(2)
+    (r.bad if bad else r.ok)("Avoid::EdgeInf::addBlocker", fn.where(), bad or "")
+    fn = prog.fn("Avoid::Router::checkAllBlockedEdges")
+    from ..rules.guards import path_condition, atoms, entails
+    cv = [n for n in calls(fn) if n.get("cname") == "Avoid::EdgeInf::checkVis"]
+    conds = set()
+    for c in cv:
+        pc = path_condition(fn, c)
+        for a_ in atoms(pc):
+            if "blocker()" in a_ and entails(pc, ("atom", a_)):
+                conds.add(a_.replace("iter", "tmp"))
+    want = {"(tmp.blocker() == -1)", "(tmp.blocker() == pid)"}
+    bad = None
+    if not want <= conds:
+        bad = "edges are re-tested only under %s; expected both blocker == pid and blocker == -1" % sorted(conds)
+    lp = [n for n in fn.nodes() if n.get("k") == "ForStmt"]
+    if not lp or "invisGraph.begin()" not in norm(lp[0]["init"]["decls"][0].get("init")) or "invisGraph.end()" not in norm(lp[0].get("cond")):
+        bad = bad or "does not scan the whole invisibility graph"
+    r.count(len(cv))
+    (r.bad if bad else r.ok)("Avoid::Router::checkAllBlockedEdges", fn.where(), bad or "")
+
+
 def run(chk):
     prog = chk.load()
+    rule_bend_symmetry(chk, prog, chk.tier)
+    rule_blocker_recorded(chk, prog)
     rule_euclid(chk, prog)
     rule_heuristic(chk, prog)
     rule_astar(chk, prog)
